@@ -73,7 +73,7 @@ struct Unit {
 struct Filter { int cutoff; Filter() : cutoff(64) {} static const rtosc::Ports ports; };
 struct Comp { int x; bool enabled; Comp() : x(0), enabled(false) {} static const rtosc::Ports ports; };
 struct Comp2 { int gain; bool on; Comp2() : gain(0), on(true) {} static const rtosc::Ports ports; };   // enabled from inside by a two-letter toggle that is on by default (so its line is usually absent)
-struct Lane { bool on; int amp; Lane() : on(false), amp(5) {} static const rtosc::Ports ports; };   // top-level directory enabled from inside by a two-letter toggle, plain macro ports
+struct Lane { bool on; int amp; Filter flt; Lane() : on(false), amp(5) {} static const rtosc::Ports ports; };   // top-level directory enabled from inside by a two-letter toggle, plain macro ports
 struct Eq { int alpha, beta, gamma, filter_cutoff; Eq() : alpha(0), beta(0), gamma(0), filter_cutoff(64) {} static const rtosc::Ports ports; };   // a table without enumerations: looked up by its perfect hash
 struct Voice { bool enabled; int mode, detune; Filter filter; Comp comp; Comp2 comp2; Voice() : enabled(false), mode(0), detune(0) {} static const rtosc::Ports ports; };
 struct Deps { Unit units[2]; int master; bool enabled; Voice voice; Lane lane; Eq eq; Deps() : master(100), enabled(false) {} static const rtosc::Ports ports; };
@@ -207,11 +207,12 @@ inline const rtosc::Ports Eq::ports = {
 inline const rtosc::Ports Lane::ports = {
     rSelf(Lane, rEnabledBy(on)),
 #undef rChangeCb
-#define rChangeCb if (obj->on) obj->amp = 5;
+#define rChangeCb if (obj->on) { obj->amp = 5; obj->flt = Filter(); }
     rToggle(on, rDefault(false), "this lane is in use; switching it on gives a fresh lane"),
 #undef rChangeCb
 #define rChangeCb
     rParamI(amp, rLinear(0, 9), rDefault(5), "amplitude (sorts before its toggle)"),
+    rRecur(flt, "a directory below the self-enabled one: its lines are two levels below the enabler's directory"),
 };
 #undef rObject
 #define rObject Comp2
@@ -359,6 +360,7 @@ inline const std::vector<Param> &deps_params() {
     P.push_back({"/voice/comp/amount", 1, 'i', [](void *o, int) { return vi(D(o)->voice.comp.x); }, [](void *, int) { return vi(0); }, [](void *o) { return D(o)->enabled && D(o)->voice.comp.enabled; }, 0, 9, 0, {}});
     P.push_back({"/voice/comp2/on", 1, 'T', [](void *o, int) { return vb(D(o)->voice.comp2.on); }, [](void *, int) { return vb(true); }, von, 0, 1, 0, {}});
     P.push_back({"/voice/comp2/gain", 1, 'i', [](void *o, int) { return vi(D(o)->voice.comp2.gain); }, [](void *, int) { return vi(0); }, [](void *o) { return D(o)->enabled && D(o)->voice.comp2.on; }, 0, 9, 0, {}});
+    P.push_back({"/lane/flt/cutoff", 1, 'i', [](void *o, int) { return vi(D(o)->lane.flt.cutoff); }, [](void *, int) { return vi(64); }, [](void *o) { return D(o)->lane.on; }, 0, 127, 0, {}});
     P.push_back({"/lane/on", 1, 'T', [](void *o, int) { return vb(D(o)->lane.on); }, [](void *, int) { return vb(false); }, yes, 0, 1, 0, {}});
     P.push_back({"/lane/amp", 1, 'i', [](void *o, int) { return vi(D(o)->lane.amp); }, [](void *, int) { return vi(5); }, [](void *o) { return D(o)->lane.on; }, 0, 9, 0, {}});
     P.push_back({"/eq/alpha", 1, 'i', [](void *o, int) { return vi(D(o)->eq.alpha); }, [](void *, int) { return vi(0); }, yes, 0, 9, 0, {}});
@@ -375,6 +377,7 @@ struct AppDesc { const char *name; const rtosc::Ports *ports; const std::vector<
 inline const std::vector<Param> &lane_params() {
     static std::vector<Param> P; if (!P.empty()) return P; auto yes = [](void *) { return true; };
     P.push_back({"/on", 1, 'T', [](void *o, int) { return vb(((Lane *)o)->on); }, [](void *, int) { return vb(false); }, yes, 0, 1, 0, {}});
+    P.push_back({"/flt/cutoff", 1, 'i', [](void *o, int) { return vi(((Lane *)o)->flt.cutoff); }, [](void *, int) { return vi(64); }, [](void *o) { return ((Lane *)o)->on; }, 0, 127, 0, {}});
     P.push_back({"/amp", 1, 'i', [](void *o, int) { return vi(((Lane *)o)->amp); }, [](void *, int) { return vi(5); }, [](void *o) { return ((Lane *)o)->on; }, 0, 9, 0, {}});
     return P;
 }
